@@ -41,6 +41,7 @@ var c13Templates = [][]string{
 	{"blpop", "K", "F"}, {"brpop", "K", "K", "F"}, {"blmove", "K", "K", "LEFT", "RIGHT", "F"}, {"brpoplpush", "K", "K", "F"}, {"blmpop", "F", "I", "K", "LEFT", "COUNT", "I"},
 	{"incrbyfloat", "K", "F"}, {"hincrbyfloat", "K", "f1", "F"}, {"lcs", "K", "K", "MINMATCHLEN", "I"}, {"lcs", "K", "K", "IDX", "MINMATCHLEN", "I", "WITHMATCHLEN"}, {"linsert", "K", "BEFORE", "a", "x"},
 	{"hello", "I"}, {"smismember", "K", "a", "b"}, {"keys", "P"}, {"scan", "0", "MATCH", "P"}, {"sscan", "K", "0", "MATCH", "P"}, {"hscan", "K", "0", "MATCH", "P"}, {"command", "list", "filterby", "pattern", "P"},
+	{"lcs", "kq", "khuge"}, {"lcs", "khuge", "kq"}, {"lcs", "kq", "khuge2"}, {"lcs", "khuge2", "kq", "LEN"}, {"lcs", "kz", "khuge2"}, {"lcs", "ka", "khuge2", "IDX"}, {"lcs", "khuge", "khuge", "LEN"},
 	{"lcs", "kbig1", "kbig2"}, {"lcs", "kbig1", "kbig2", "IDX"}, {"lcs", "kbig1", "kbig1", "LEN"}, {"lcs", "kbig2", "K", "IDX", "WITHMATCHLEN"},
 	{"sort", "K", "BY", "w_*->f"}, {"sort", "K", "GET", "w_*->f", "GET", "#"}, {"sort", "K", "BY", "k*->f1", "GET", "k*->f1"}, {"sort", "K", "BY", "h_*->f", "GET", "w_*->x", "STORE", "K"},
 	{"sort", "K", "BY", "P"}, {"sort", "K", "BY", "w_*", "GET", "P", "GET", "#"}, {"sort", "K", "BY", "h_*->f", "LIMIT", "I", "I", "GET", "h_*->"}, {"sort", "K", "GET"},
@@ -101,7 +102,8 @@ type c13Runner struct {
 	victim   *Conn
 	by       *Conn
 	restarts int
-	slow     int // replies that took longer than 1.5 s (and arrived within the bound)
+	slow     int  // replies that took longer than 1.5 s (and arrived within the bound)
+	huge     bool // the current case uses the megabyte strings
 }
 
 func (r *c13Runner) setup() error {
@@ -130,9 +132,16 @@ func (r *c13Runner) newVictim() error {
 
 func (r *c13Runner) seedState() error {
 	c := r.by
+	defer func() {
+		if r.huge {
+			// the megabyte strings only for the cases that name them (allocating them for every case is slow)
+			c.Do(5*time.Second, bs("SETRANGE", "khuge", "1499999", "y")...)
+			c.Do(5*time.Second, bs("SETRANGE", "khuge2", "16777215", "y")...)
+		}
+	}()
 	for _, cmd := range [][]string{{"FLUSHALL"}, {"SET", "ka", "hello"}, {"RPUSH", "kl", "a", "b", "c"}, {"HSET", "kh", "f1", "1", "f2", "x"}, {"SADD", "ks", "a", "b", "c"},
 		{"SET", "kbig1", c13Big(1)}, {"SET", "kbig2", c13Big(2)}, {"SET", "w_a", "1"}, {"HSET", "h_a", "f", "1"},
-		{"RPUSH", "knames", "a", "l", "h", "s", "e"}, {"SADD", "ksnames", "a", "l", "h", "s"}, {"SET", "ke", ""}, {"SET", "kz", "\x00"}, {"SET", "kn", "-9223372036854775808"}, {"SADD", "k1", "only"}, {"SET", "kx", "gone"}, {"PEXPIRE", "kx", "1"}} {
+		{"RPUSH", "knames", "a", "l", "h", "s", "e"}, {"SADD", "ksnames", "a", "l", "h", "s"}, {"SET", "ke", ""}, {"SET", "kz", "\x00"}, {"SET", "kq", "q"}, {"SET", "kn", "-9223372036854775808"}, {"SADD", "k1", "only"}, {"SET", "kx", "gone"}, {"PEXPIRE", "kx", "1"}} {
 		if _, err := c.Do(3*time.Second, bs(cmd...)...); err != nil {
 			return err
 		}
@@ -168,6 +177,12 @@ func (r *c13Runner) run(cs c13Case) (string, error) {
 		r.late = why
 	}
 	r.prev = cs
+	r.huge = false
+	for _, a := range unhexs(cs.Args) {
+		if strings.HasPrefix(string(a), "khuge") {
+			r.huge = true
+		}
+	}
 	if err := r.seedState(); err != nil {
 		if err := r.setup(); err != nil {
 			return "", err
